@@ -425,4 +425,131 @@ theorem distinct_short (p : Str) (sfx : Str → Str) (k k' : Str) (hk : k.length
   rw [v2Key_eq, v2Key_eq, v2Name_short hk, v2Name_short hk'] at e
   exact hne (List.append_cancel_left e)
 
+/-! ## Each hypothesis is necessary: witnesses (the open findings F6, F6b–F6e) -/
+
+def kz : Str := "kopf.zalando.org".toList
+def constSfx (s : String) : Str → Str := fun _ => s.toList
+def xs (n : Nat) : Str := List.replicate n 'x'
+/-- a 55-character and a 60-character valid DNS prefix -/
+def p55 : Str := "operators.platform-engineering.example-company.internal".toList
+def p60 : Str := "operators.platform-engineering.emea.example-company.internal".toList
+
+/-- **F6** `EdgeAlnum` is necessary: the id `fn/` (in the alphabet, any hash) gives
+    `kopf.zalando.org/fn.`, which is not a valid annotation key. -/
+theorem edge_witness (sfx : Str → Str) :
+    validPrefix kz = true ∧ IdOk "fn/".toList ∧ ¬ EdgeAlnum (safeKey "fn/".toList) ∧
+    v2Key kz sfx "fn/".toList = "kopf.zalando.org/fn.".toList ∧
+    validQualified (v2Key kz sfx "fn/".toList) = false := by
+  have e : v2Key kz sfx "fn/".toList = "kopf.zalando.org/fn.".toList := by
+    simp [v2Key]; decide
+  refine ⟨by decide, by decide, by decide, e, ?_⟩
+  rw [e]; decide
+
+/-- … and at the front (`<locals>.fn` → `_locals_.fn`), also on a marked (ReplicaSet) key. -/
+theorem edge_witness_front (sfx : Str → Str) :
+    IdOk "<locals>.fn".toList ∧
+    validQualified (v2Key kz sfx (markKey true "<locals>.fn".toList)) = false := by
+  have e : v2Key kz sfx (markKey true "<locals>.fn".toList) = "kopf.zalando.org/_locals_.fn-ofDRS".toList := by
+    simp [v2Key, markKey, ofDRS]; decide
+  refine ⟨by decide, ?_⟩
+  rw [e]; decide
+
+/-- `GoodSfx` is necessary: with a suffix ending in `.` a long, otherwise fine id gets an invalid name. -/
+theorem sfx_witness :
+    IdOk (xs 64) ∧ EdgeAlnum (safeKey (xs 64)) ∧ ¬ GoodSfx (constSfx "-ab." (xs 64)) ∧
+    validQualified (v2Key kz (constSfx "-ab.") (xs 64)) = false := by
+  decide
+
+/-- **F6c** the room hypothesis of `valid_name_v1` is necessary: with a valid 55-character prefix
+    the v1 name of a hashed id is the bare suffix (starts with `-`); with a 60-character prefix
+    the cut is negative — a slice from the end — and the v1 name part is longer than 63. -/
+theorem v1_long_prefix_witness :
+    validPrefix p55 = true ∧ IdOk "create_fn/spec.field".toList ∧
+    EdgeAlnum (safeKey "create_fn/spec.field".toList) ∧ GoodSfx (constSfx "-AAAAAQ" []) ∧
+    v1Key p55 (constSfx "-AAAAAQ") "create_fn/spec.field".toList = p55 ++ "/-AAAAAQ".toList ∧
+    validQualified (v1Key p55 (constSfx "-AAAAAQ") "create_fn/spec.field".toList) = false ∧
+    validPrefix p60 = true ∧ (v1Name p60 (constSfx "-AAAAAQ") (xs 100)).length = 102 := by
+  decide
+
+/-- **F6b** `sfx k ≠ sfx k'` in `distinct` is necessary: whenever the suffixes of two long ids
+    collide and the ids agree on the characters kept, the v2 names coincide … -/
+theorem collision_witness (p : Str) (sfx : Str → Str) (k k' : Str) (hk : k.length > 63) (hk' : k'.length > 63)
+    (hs : sfx k = sfx k')
+    (ht : (safeKey k).take (63 - (sfx k).length) = (safeKey k').take (63 - (sfx k).length)) :
+    v2Key p sfx k = v2Key p sfx k' := by
+  rw [v2Key_eq, v2Key_eq, v2Name_long hk, v2Name_long hk', ← hs, ht]
+
+/-- … and such pairs exist for any hash whose range is smaller than its domain (here: constant). -/
+example : xs 64 ≠ xs 65 ∧ v2Key kz (constSfx "-AAAAAQ") (xs 64) = v2Key kz (constSfx "-AAAAAQ") (xs 65) := by
+  decide
+
+/-- **F6d** `safeKey k ≠ safeKey k'` in `distinct_short` is necessary: ids with the same safe form
+    (at most 63 characters) get the same names under every configuration and hash … -/
+theorem safe_form_witness (p : Str) (v1 : Bool) (sfx : Str → Str) (k k' : Str)
+    (hs : safeKey k = safeKey k') (hk : k.length ≤ 63) :
+    makeKeys p v1 sfx k = makeKeys p v1 sfx k' := by
+  have hk' : k'.length ≤ 63 := by
+    rw [← safeKey_length k', ← hs, safeKey_length]; exact hk
+  have e2 : v2Key p sfx k = v2Key p sfx k' := by
+    rw [v2Key_eq, v2Key_eq, v2Name_short hk, v2Name_short hk', hs]
+  have e1 : v1Key p sfx k = v1Key p sfx k' := by
+    simp only [v1Key, hs]
+  simp only [makeKeys, e1, e2]
+
+/-- … e.g. the field handler `fn/spec.field` and the sub-handler path `fn/spec/field`. -/
+example : "fn/spec.field".toList ≠ "fn/spec/field".toList ∧
+    safeKey "fn/spec.field".toList = safeKey "fn/spec/field".toList := by decide
+
+/-- **F6e** "both ids longer than 63" in `distinct` is necessary: the 63-character id that spells
+    the cut-and-hashed name of a longer id gets the same v2 name without any hash collision. -/
+theorem forged_witness :
+    xs 56 ++ "-AAAAAQ".toList ≠ xs 64 ∧ (xs 56 ++ "-AAAAAQ".toList).length = 63 ∧
+    IdOk (xs 56 ++ "-AAAAAQ".toList) ∧
+    v2Key kz (constSfx "-AAAAAQ") (xs 56 ++ "-AAAAAQ".toList) = v2Key kz (constSfx "-AAAAAQ") (xs 64) := by
+  decide
+
+/-- the covering hypothesis of `roundtrip_status` is necessary: a record written over an older
+    record with other keys reads back merged (RFC 7386), not as stored. -/
+theorem status_cover_witness :
+    let c : StatusCfg := ⟨["status", "kopf", "progress"], ["status", "kopf", "dummy"], false⟩
+    let body : J := obj [("status", obj [("kopf", obj [("progress", obj [("h", obj [("b", num 2)])])])])]
+    ∃ patch', statusStore c (obj []) ['h'] [("a", num 1)] = .ok patch' ∧
+      (match statusFetch c (mergePatch body patch') ['h'] with
+       | .ok (some j) => j == obj [("b", num 2), ("a", num 1)]
+       | _ => false) = true := by
+  intro c body
+  exact ⟨obj [("status", obj [("kopf", obj [("progress", obj [("h", obj [("a", num 1)])])])])], by rfl, by decide⟩
+
+/-! ## Non-vacuity: the hypotheses of the theorems are met by concrete, non-trivial instances -/
+
+def env0 : Env :=
+  { sfx := constSfx "-AAAAAQ", enc := fun _ => "X", dec := fun _ => some (obj [("retries", num 1)]) }
+def c0 : AnnCfg := ⟨"my-op.example.com".toList, true, false, "touch-dummy".toList⟩
+/-- a ReplicaSet owned by a Deployment, with a user annotation -/
+def body0 : J := obj [("kind", str "ReplicaSet"),
+  ("metadata", obj [("ownerReferences", arr [obj [("kind", str "Deployment")]]),
+                    ("annotations", obj [("note", str "user data")])])]
+def r0 : Rec := [("retries", num 1), ("message", null)]
+/-- 70 characters: hashed in v2 and in v1 -/
+def k0 : Str := "fn/".toList ++ xs 67
+
+example : isDRS body0 = true := by decide
+example : (makeKeys c0.pfx c0.v1 env0.sfx (markKey true k0)).length = 2 := by decide
+example : wf (obj []) = true ∧ MarkStable (obj []) := ⟨by decide, markStable_nil⟩
+example : env0.dec (env0.enc (obj (stored c0.verbose r0))) = some (obj (stored c0.verbose r0)) := by rfl
+example : (match annStore env0 c0 body0 (obj []) k0 r0 with | .ok _ => true | _ => false) = true := by decide
+example : (match annPurge env0 c0 body0 (obj []) k0 with | .ok _ => true | _ => false) = true := by decide
+example : FlatRec r0 := ⟨by decide, by decide⟩
+example : FieldApart ["status", "kopf", "progress"] := ⟨"status", _, rfl, by decide, by decide⟩
+example : validPrefix kz = true ∧ validPrefix c0.pfx = true := by decide
+example : IdOk k0 ∧ EdgeAlnum (safeKey k0) ∧ GoodSfx (env0.sfx k0) := by decide
+example : IdOk "Outer.<locals>.fn/sub/spec.field".toList ∧
+    EdgeAlnum (safeKey "Outer.<locals>.fn/sub/spec.field".toList) := by decide
+/-- `valid_name_v1`'s room hypothesis holds for the default prefix and the real suffix length -/
+example : (pre kz).length + (env0.sfx (safeKey k0)).length < 63 := by decide
+/-- `distinct`: two long ids sharing a 64-character prefix, different (equal-length) suffixes -/
+example : let sfx : Str → Str := fun k => if k.length = 64 then "-AAAAAQ".toList else "-BBBBBQ".toList
+    (xs 64).length > 63 ∧ (xs 65).length > 63 ∧ (sfx (xs 64)).length = (sfx (xs 65)).length ∧ sfx (xs 64) ≠ sfx (xs 65) := by
+  decide
+
 end Kopf.C16
